@@ -4,7 +4,7 @@ from .common import *
 
 BOUNDS = {"data_length": "any (symbolic 64-bit length, 0 .. 2^62)", "chunks": "<= 3 per writer (quick 2), symbolic boundaries, empty chunks allowed",
           "declared_size": "absent or equal to the data length (full range, so the 1 MiB mmap threshold is inside)",
-          "algorithms": "all five", "keys": "hostile key set (quick: 3, thorough: 11)",
+          "algorithms": "all five", "prior_state": "cold cache, or the content address already occupied by an arbitrary wrong file", "keys": "hostile key set (quick: 3, thorough: 11)",
           "outside": "more than 3 chunks; filesystems that perform short writes; internals of modelled crates"}
 
 
@@ -53,6 +53,36 @@ def streamed(ctx, key, algo, keyed, declared, nchunks, api):
     expect_bytes(ctx, scn.read_hash(sri), data, tag + ":read_hash", "read by address after streamed write")
 
 
+def heal(ctx, keyed, streamed_, api):
+    """The content address already holds WRONG bytes (arbitrary file left by damage or an earlier
+    incident); writing the data again must still make it readable."""
+    scn = ctx.new_scn(api=api)
+    D = scn.blob("D")
+    data = scn.whole(D)
+    tag = "C02:%s:heal:%s:%s" % (api, "keyed" if keyed else "hash", "streamed" if streamed_ else "oneshot")
+    r = scn.write_hash(data)
+    if r.kind != "ok":
+        return
+    F = scn.blob("F")
+    scn.distinct(D, F)
+    scn.fs_set(scn.content_path_of(r.value), scn.whole(F))
+    if streamed_:
+        r = scn.open("k", {}) if keyed else scn.open_hash({})
+        if not expect_ok(ctx, r, tag + ":open", "open"):
+            return
+        h = r.handle
+        if not expect_ok(ctx, scn.hwrite_all(h, data), tag + ":write", "write"):
+            return
+        r = scn.commit(h)
+    else:
+        r = scn.write("k", data) if keyed else scn.write_hash(data)
+    if not expect_sri(ctx, r, data, "Sha256", tag, "re-writing data whose content address holds wrong bytes"):
+        return
+    if keyed:
+        expect_bytes(ctx, scn.read("k"), data, tag + ":read", "read by key after re-writing over a damaged content file")
+    expect_bytes(ctx, scn.read_hash(r.value), data, tag + ":read_hash", "read by address after re-writing over a damaged content file")
+
+
 def tasks(tier, flavours):
     keys = HOSTILE_KEYS[:3] if tier == "quick" else HOSTILE_KEYS
     algos = [None, "Sha1", "Sha512"] if tier == "quick" else [None] + ALGOS
@@ -67,6 +97,9 @@ def tasks(tier, flavours):
                     out.append(dict(module="C02", family="oneshot", flavour=fl, params=dict(key=keys[0], algo=algo, keyed=keyed, api=api)))
             for k in keys[1:]:
                 out.append(dict(module="C02", family="oneshot", flavour=fl, params=dict(key=k, algo=None, keyed=True, api=api)))
+            for keyed in (True, False):
+                for st in (True, False):
+                    out.append(dict(module="C02", family="heal", flavour=fl, params=dict(keyed=keyed, streamed_=st, api=api)))
             for keyed in (True, False):
                 for declared in (False, True):
                     for n in ((1, 2) if tier == "quick" else (1, 2, 3)):
